@@ -8,11 +8,14 @@ import vlib
 ALL16 = "{" + ", ".join(str(i) for i in range(16)) + "}"
 BOUNDARY = "{0, 1, 32767, 32768, 32769, 65534, 65535}"
 RTP_KINDS = '{"flip_hdr", "flip_csrc_ext", "flip_payload", "flip_tag", "truncate", "extend", "reseq", "wrongkey", "newssrc"}'
+# a forgery is presented k times in a row (failure counters / rate-limited paths): each must be rejected, nothing may move
+REPS = "{1, 4, 5, 101}"
 RTCP_KINDS = '{"flip_hdr", "flip_payload", "flip_tag", "flip_ebit", "truncate", "extend", "reindex", "wrongkey", "newssrc"}'
 
 BASE = dict(Ssrcs="{1}", ForgedSsrcs="{}", SeqBits=4, SeqAlpha=ALL16, MaxRoc=2, StartIdx="{15, 24}",
             StartFresh="TRUE", StepsFwd="{}", StepsBack="{}", MaxLen=4, MaxSent=3, Watermark=2,
-            WithRtcp="FALSE", WithTick="FALSE", RtpForgeKinds="{}", RtcpForgeKinds="{}", ForgeOffsets="{}")
+            WithRtcp="FALSE", WithTick="FALSE", RtpForgeKinds="{}", RtcpForgeKinds="{}", ForgeOffsets="{}",
+            ForgeReps="{1}")
 
 
 def conf(**kw):
@@ -33,6 +36,10 @@ CONFIGS = {
         # several SSRCs interleaved, SRTCP
         ("multi/rtcp", conf(Ssrcs="{1, 2, 3}", SeqAlpha="{0, 1, 14, 15}", StartIdx="{15}", StepsFwd="{1, 2}",
                             StepsBack="{1}", WithRtcp="TRUE", MaxLen=4, MaxSent=4)),
+        # more live streams than the context high-water mark + 60 s silences: the documented idle-context eviction
+        # (the model relaxes the demand after an eviction; what a never-forgetting receiver would accept is EXT)
+        ("idle/churn", conf(Ssrcs="{1, 2, 3}", SeqAlpha="{15, 0}", StartIdx="{16}", StepsFwd="{1}", StepsBack="{}",
+                            WithTick="TRUE", MaxLen=5, MaxSent=4)),
     ],
     ("C04", "thorough"): [
         ("roc/bits4", conf(StartIdx="{15, 24, 40}", MaxLen=6, MaxSent=5)),
@@ -43,15 +50,15 @@ CONFIGS = {
     ],
     ("C05", "quick"): [
         ("forge/bits4", conf(ForgedSsrcs="{9}", StepsFwd="{1, 2, 7}", StepsBack="{1, 7}", WithRtcp="TRUE",
-                             RtpForgeKinds=RTP_KINDS, RtcpForgeKinds=RTCP_KINDS, ForgeOffsets="{1, 7, 8, 9, 15}")),
+                             RtpForgeKinds=RTP_KINDS, RtcpForgeKinds=RTCP_KINDS, ForgeOffsets="{1, 7, 8, 9, 15}", ForgeReps="{1, 5}")),
         ("forge/bits16", conf(SeqBits=16, SeqAlpha=BOUNDARY, StartIdx="{32767, 65535, 98304}", ForgedSsrcs="{9}",
                               RtpForgeKinds='{"reseq", "wrongkey", "flip_hdr", "flip_tag"}',
                               RtcpForgeKinds='{"reindex", "wrongkey"}', WithRtcp="TRUE",
-                              ForgeOffsets="{1, 32767, 32768, 32769, 65535}", MaxLen=3, MaxSent=3)),
+                              ForgeOffsets="{1, 32767, 32768, 32769, 65535}", ForgeReps=REPS, MaxLen=3, MaxSent=3)),
         # context table: forged new SSRCs, idle time, eviction above the high-water mark
         ("table", conf(Ssrcs="{1, 2}", ForgedSsrcs="{8, 9}", SeqAlpha="{15, 0, 1}", StartIdx="{16}", StepsFwd="{1}",
                        StepsBack="{}", WithTick="TRUE", RtpForgeKinds='{"newssrc", "wrongkey"}',
-                       RtcpForgeKinds='{"newssrc"}', WithRtcp="TRUE", ForgeOffsets="{1}", MaxLen=5, MaxSent=3)),
+                       RtcpForgeKinds='{"newssrc"}', WithRtcp="TRUE", ForgeOffsets="{1}", ForgeReps="{1, 5}", MaxLen=5, MaxSent=3)),
         # more genuine streams than the high-water mark: legitimate eviction by authenticated traffic; forged
         # packets arriving while the table is over the mark and contexts are stale must still change nothing
         ("churn", conf(Ssrcs="{1, 2, 3}", ForgedSsrcs="{9}", SeqAlpha="{15, 0}", StartIdx="{16}", StepsFwd="{1}",
@@ -60,15 +67,15 @@ CONFIGS = {
     ],
     ("C05", "thorough"): [
         ("forge/bits4", conf(ForgedSsrcs="{9}", StepsFwd="{1, 2, 7}", StepsBack="{1, 7}", WithRtcp="TRUE",
-                             RtpForgeKinds=RTP_KINDS, RtcpForgeKinds=RTCP_KINDS, ForgeOffsets="{1, 7, 8, 9, 15}",
+                             RtpForgeKinds=RTP_KINDS, RtcpForgeKinds=RTCP_KINDS, ForgeOffsets="{1, 7, 8, 9, 15}", ForgeReps=REPS,
                              MaxLen=5, MaxSent=4)),
         ("forge/bits16", conf(SeqBits=16, SeqAlpha=BOUNDARY, StartIdx="{32767, 65535, 98304}", ForgedSsrcs="{9}",
                               RtpForgeKinds='{"reseq", "wrongkey", "flip_hdr", "flip_tag"}',
                               RtcpForgeKinds='{"reindex", "wrongkey"}', WithRtcp="TRUE",
-                              ForgeOffsets="{1, 32767, 32768, 32769, 65535}", MaxLen=4, MaxSent=4)),
+                              ForgeOffsets="{1, 32767, 32768, 32769, 65535}", ForgeReps=REPS, MaxLen=4, MaxSent=4)),
         ("table", conf(Ssrcs="{1, 2}", ForgedSsrcs="{8, 9}", SeqAlpha="{15, 0, 1}", StartIdx="{16}", StepsFwd="{1}",
                        StepsBack="{}", WithTick="TRUE", RtpForgeKinds='{"newssrc", "wrongkey"}',
-                       RtcpForgeKinds='{"newssrc"}', WithRtcp="TRUE", ForgeOffsets="{1}", MaxLen=6, MaxSent=3)),
+                       RtcpForgeKinds='{"newssrc"}', WithRtcp="TRUE", ForgeOffsets="{1}", ForgeReps="{1, 5}", MaxLen=6, MaxSent=3)),
         # more genuine streams than the high-water mark: legitimate eviction by authenticated traffic; forged
         # packets arriving while the table is over the mark and contexts are stale must still change nothing
         ("churn", conf(Ssrcs="{1, 2, 3}", ForgedSsrcs="{9}", SeqAlpha="{15, 0}", StartIdx="{16}", StepsFwd="{1}",
@@ -87,7 +94,7 @@ SIM = {
     "C05": [("sim/forge", conf(Ssrcs="{1, 2}", ForgedSsrcs="{9}", MaxRoc=3, StartIdx="{15, 30}", StepsFwd="{1, 7}",
                                StepsBack="{1}", WithRtcp="TRUE", WithTick="TRUE",
                                RtpForgeKinds='{"flip_hdr", "flip_tag", "reseq", "wrongkey", "newssrc"}',
-                               RtcpForgeKinds='{"reindex", "flip_tag", "newssrc"}', ForgeOffsets="{1, 9}",
+                               RtcpForgeKinds='{"reindex", "flip_tag", "newssrc"}', ForgeOffsets="{1, 9}", ForgeReps="{1, 4, 5}",
                                MaxLen=16, MaxSent=8), 30, 200)],
 }
 
